@@ -270,7 +270,9 @@ pub(crate) fn unit(
                 return Err(Error::new(span, Unexpected { kind }));
             }
             OP_DIV => {
-                current = -current;
+                // NB: everything after a division is inverted, a second division
+                // does not undo the first.
+                current = -1;
             }
             WHITESPACE | OP_MUL => {}
             kind => {
